@@ -330,7 +330,11 @@ def i6(ctx, rid):
     rg = prog.body_of('blob::core::Blob::<K>::try_regenerate_index')
     if rg is None:
         raise core.AnchorLost('try_regenerate_index')
-    if any(c.name == 'push' and any('IndexTrait' in t for t in prog.resolve(c)) for c in rg.calls):
+    L, E = prog.may_reach()
+    is_push = lambda c: c.name == 'push' and any('IndexTrait' in t for t in prog.resolve(c))
+    via_helper = any(is_push(c2) for c in rg.calls for t in prog.resolve(c) if t in prog.fns and prog.fns[t].file == rg.file
+                     for x in [t] + sorted(L.get(t, ())) if x in prog.fns and prog.fns[x].file == rg.file for c2 in prog.fns[x].calls)
+    if any(is_push(c) for c in rg.calls) or via_helper:
         ctx.ok(rid, 'regeneration-uses-push', rg.where(), 'headers scanned from the blob are inserted through IndexStruct::push')
     else:
         ctx.bad(rid, 'regeneration-uses-push', rg.where(), 'index regeneration does not insert through IndexStruct::push')
@@ -363,14 +367,24 @@ def i8(ctx, rid):
         aok = [core.ok_block(f, c) for c in acalls]
         aok = [x for x in aok if x is not None]
         bad = None
-        if not sets:
+        L, E = prog.may_reach()
+
+        def sets_true(t):
+            for x in [t] + sorted(L.get(t, ())):
+                for c2 in prog.fns[x].calls if x in prog.fns else []:
+                    if c2.name == 'set_written' and len(c2.args) > 1 and core.const_int(prog, op_const(c2.args[1])) == 1:
+                        return True
+            return False
+        # the second phase may live in a helper (`mark_written_and_rewrite_header`) called after the append
+        late_helpers = [c for c in f.calls if c.bb in f.reachable() and c.bb not in f.reach_from([0], avoid_enter=aok)
+                        and any(t in prog.fns and sets_true(t) for t in prog.resolve(c))]
+        if not sets and not late_helpers:
             bad = 'the written flag is never set by a separate step after the body append (a single-pass write makes a torn body carry written=1)'
         for c in sets:
             v = core.const_int(prog, op_const(c.args[1])) if len(c.args) > 1 else None
             if v == 1 and c.bb in f.reach_from([0], avoid_enter=aok):
                 bad = 'set_written(true) is reachable before the body append has completed: the appended header already carries written=1'
         # set_written(true) anywhere in the serialisation path (callees) is also a single-pass write
-        L, E = prog.may_reach()
         for c in f.calls:
             for t in prog.resolve(c):
                 if t in prog.fns and c.bb in f.reach_from([0], avoid_enter=aok):
